@@ -364,6 +364,32 @@ def run(report, index, tier):
                 if key not in seen_jobs:
                     seen_jobs.add(key)
                     jobs.append(job)
+    # line-structured family: what a printer emits around line breaks -
+    # two fragments ending a generated line (the second often a
+    # continuation the normalisation drops), one or two line-break
+    # fragments (a blank generated line), one or two fragments opening the
+    # next line.  Longer than the bound, but narrow.
+    head = [('a', k, nm, s_) for k, nm, s_ in (
+        ('pos', None, 'S1'), ('cont', None, 'S1'), ('back', None, 'S1'),
+        ('pos', 'orig', 'S1'), ('pos', None, 'S2'), ('none', None, 'S1'))]
+    breaks = [('\n', 'none', None, 'S1'), ('x\n', 'pos', None, 'S1')]
+    tail = [('bcd', k, nm, s_) for k, nm, s_ in (
+        ('pos', None, 'S1'), ('cont', None, 'S1'), ('back', None, 'S1'),
+        ('none', None, 'S1'))]
+    n_lines = 0
+    for h in itertools.product(head, head[:2] + head[-1:]):
+        for nb in (1, 2):
+            for b in itertools.product(breaks, repeat=nb):
+                for nt in (1, 2):
+                    for t in itertools.product(
+                            tail if nt == 1 else tail[:2], repeat=nt):
+                        job = concretise(h + b + t)
+                        key = repr(job)
+                        if key not in seen_jobs:
+                            seen_jobs.add(key)
+                            jobs.append(job)
+                            n_lines += 1
+    report.count('R09.1: line-structured streams (4-6 fragments)', n_lines)
     import concurrent.futures as cf
     import os
     workers = min(16, os.cpu_count() or 1)
